@@ -195,6 +195,11 @@ func runC10(r *core.Run) {
 		if h.mode == 3 {
 			plan.Max = 2
 		}
+		// "or is interrupted": the caller gives up at one of the calls (the command's context is
+		// cancelled there; steps that do not look at the context go on)
+		if r.Chance(35, "caller-cancels?") {
+			plan.CancelArmed, plan.CancelAt = true, plan.N+r.Intn(14, "cancel-at-call") // counted from the rotation's first call
+		}
 	}
 	a.Now = a.Now.Add(24 * time.Hour)
 	// (localkm) the file the new key version would be saved in cannot be written: something else
